@@ -1,2 +1,8 @@
 import connspec
 SPEC = connspec.spec('C08', 'check_C08', {30: 'panic', 31: 'handler_does_not_return'}, "Theorem (Coq): no event list makes the connection model reach a panic point (index, nil dereference - modelled explicitly), a nested shutdownOnce (deadlock) or unbounded handler recursion: for every received frame content in every state of both roles the handlers return. Proof: certified closure. Tie: differential runs with structured mutations of every message kind and raw bytes, each call under recover and a deadline; directed witnesses of the two defects repaired on the pinned tree. The websocket frame check is covered by C13's driver and the mDNS TXT/entry processing by C16/C17's (total Gallina functions compared with the code on malformed records); memory exhaustion and panics inside encoding/json, gorilla or the mDNS libraries are outside the model.")
+
+# mDNS half: the resolver-callback histories of C17's driver (TXT sets incl. incomplete and own-SKI records, address lists
+# with repeated, IPv4, several link-local IPv6 addresses, add/remove), each call under recover and a deadline
+SPEC["streams"] = [dict(imports="From Coq Require Import Uint63 ZArith.\nFrom Ship Require Import Base Pack Txt MdnsMap MdnsC08.\nOpen Scope N_scope.", case_type="c08m_case", check_fn="check_mdns_C08",
+                        drivers=[dict(bin="mdnsdrv", args=["-prop", "C08"], n_quick=800, n_thorough=20000)],
+                        codes={130: "mdns_resolver_callback_panics", 131: "mdns_resolver_callback_does_not_return"})]
